@@ -11,6 +11,11 @@ CLAIMED = {
          "Every reachable session state over a 32-statement alphabet (bind, rebind, shadow, nested assignment, output, calls, failing and reserved-name statements) is enumerated to the BFS fixpoint; every transition runs one statement through get_pairs/evaluate_pairs and is checked against the immutability/scoping invariants and a reference model of the alphabet. Right level because the property is an invariant over all statement histories.",
          "Trusts the harness's canonical state key (sorted bindings + outputs) and the 32-statement reference model; names/values outside the alphabet are not explored.",
          "DESIGN.md §4 C03"),
+ "C05": ("exploration",
+         "generator-automaton enumeration of function bodies x capture configurations x argument tuples; differential execution of original vs reloaded vs re-emitted function",
+         "Function bodies = every node kind alone, every parent x child kind in every slot, depth-3 spines, plus binder-collision kinds (inner parameter / do-local / shorthand named like a captured name, postfix on captured values) over typed leaves; each under 12 capture configurations (negative, NaN, infinities, -0, strings with both quote kinds / backslash / newline, nested data, records with quoted keys, closures with their own captures, built-ins) and every argument pair of a 6/11-value pool: the original closure, its from_json(to_json(.)) reload in a fresh heap and the re-emitted reload must agree (equal value or both fail); the emitted text must itself be a lambda; a spread of functions also through the real `blots p1 | blots p2` pipeline.",
+         "Function-valued results are compared by signature only (their behaviour is compared when they are called); self-recursive and late-bound functions are outside the statement; one recorded known finding (emitted text of root-pipe bodies is not itself a lambda, pinned by existing tests).",
+         "DESIGN.md §4 C05"),
  "C07": ("exploration",
          "generator-automaton enumeration of syntax trees x every maximum width up to each program's saturation bound; re-parse and AST comparison",
          "Reference renderings of every tree of the generator families (every node kind; parent x child kind in every slot; thorough: full slot products, all depth-3 spines, depth-4 spines over class representatives - 3.1 M programs), literal families, the corpus and comment/blank-line/leading-minus statement sequences are formatted at every width from 1 to the per-program saturation bound (re-checked) plus the default; every distinct output is re-parsed and compared statement by statement with the input's AST. Paths: real format_blots (wasm source, native shim) and the real `blots --format` binary.",
